@@ -217,6 +217,14 @@ func c13Corpus() ([]*corpusItem, error) {
 			Input: []byte("id,name,qty\n1,alpha,10\n2,be\"ta,20\n3,gamma,30\n4,\"del\"ta,40\n5,eps,50\n6,\"open\"x,60\n7,eta,70\n8,theta,80\n3,again,31\n9,io\"ta,90\n10,kappa,100\n11,lambda,110\n")},
 		&corpusItem{Name: "c13/csv2-filter-and-rejected-lines", Format: "csv2", Schema: []byte(strings.Replace(miniCSV2, `{"FINAL_OUTPUT": {"object"`, `{"FINAL_OUTPUT": {"xpath": ".[id != 'c']", "object"`, 1)),
 			Input: []byte("H,a,1\nD,x\nH,c,3\nH,b\"b,2\nD,y\nH,d,4\nD,z\nH,c,5\nD,\"z\"z\nH,e,6\nH,f,7\n")})
+	// sibling fields whose names share everything after a dot, several of them failing on the same record: which failure
+	// is reported is part of the result
+	extra = append(extra, &corpusItem{Name: "c13/dotted-field-names", Format: "json", Schema: []byte(`{"parser_settings": {"version": "omni.2.1", "file_format_type": "json"},
+ "transform_declarations": {"FINAL_OUTPUT": {"xpath": "/*", "object": {
+   "ship.zip": {"xpath": "ship", "type": "int"}, "bill.zip": {"xpath": "bill", "type": "int"}, "a.b.zip": {"xpath": "ab", "type": "int"}, "zip": {"xpath": "zip", "type": "int"},
+   "x%.zip": {"xpath": "x", "type": "int"}, "zip.": {"xpath": "z2", "type": "int"}, "nested": {"object": {"q.zip": {"xpath": "q", "type": "int"}, "p.zip": {"xpath": "p", "type": "int"}}}}}}}`),
+		Input: []byte(`[{"ship": "1", "bill": "2", "ab": "3", "zip": "4", "x": "5", "z2": "6", "q": "7", "p": "8"}, {"ship": "s", "bill": "b", "ab": "ab", "zip": "z", "x": "x", "z2": "zz", "q": "q", "p": "p"},
+ {"ship": "1", "bill": "b", "ab": "ab"}, {"ship": "s", "bill": "2", "ab": "ab"}, {"q": "q", "p": "p"}, {"ship": "1", "q": "7", "p": "p"}, {"x": "x", "z2": "zz", "zip": "z"}, {"bill": "b", "zip": "z", "ship": "s"}]`)})
 	extra = append(extra, &corpusItem{Name: "c13/builtin-funcs", Format: "json", Schema: []byte(c13BuiltinFuncs), Input: []byte(c13ExtFuncsInput)})
 	for _, it := range extra {
 		if it.mk != nil {
@@ -319,6 +327,42 @@ func c13Drive(args []string) int {
 				}
 				events = append(events, M{"ev": ev, "tr": trNo, "item": it.Name, "results": fpAll(o, "full"),
 					"config": fmt.Sprintf("pool=%v right after %s", pool, pd.Name)})
+			}
+		}
+	}
+	// the compiled-xpath cache against no cache at all (idr's DisableXPathCache, the path xpath_dynamic takes): expressions
+	// whose literals contain runs of white space, either quote character, brackets - anything a cache key might normalise
+	{
+		doc := `<r><e n="A  B"><v>double</v></e><e n="A B"><v>single</v></e><e n="A	B"><v>tab</v></e><e n=" A B "><v>padded</v></e><e n="it's"><v>apos</v></e><e n='say "x"'><v>quot</v></e><e n="[1]"><v>bracket</v></e><e n="a]b"><v>close</v></e></r>`
+		sr, e := idr.NewXMLStreamReader(strings.NewReader(doc), "/r")
+		var root *idr.Node
+		if e == nil {
+			root, e = sr.Read()
+		}
+		if e != nil {
+			fmt.Println("error: c13 xpath-cache document:", e)
+			return 3
+		}
+		exprs := []string{`e[@n='A  B']/v`, `e[@n='A B']/v`, "e[@n='A\tB']/v", `e[@n=' A B ']/v`, `e[@n="it's"]/v`, `e[@n='say "x"']/v`, `e[@n='[1]']/v`, `e[@n='a]b']/v`,
+			`e[contains(@n, '  ')]/v`, `e[contains(@n, ' ')]/v`, `e[ @n = 'A B' ]/v`, `e[starts-with(@n,' ')]/v`, `e[string-length(@n) = 4]/v`, ` e [ 2 ] / v `, `e[@n='A  B' or @n='A B']/v`}
+		for round := 0; round < 2; round++ { // cold and warm
+			for _, x := range exprs {
+				sig := func(flags ...uint) string {
+					ns, err := idr.MatchAll(root, x, flags...)
+					if err != nil {
+						return "error"
+					}
+					var vs []string
+					for _, n := range ns {
+						vs = append(vs, n.InnerText())
+					}
+					return strings.Join(vs, ",")
+				}
+				trNo++
+				events = append(events, M{"ev": "golden", "tr": trNo, "item": "xpath " + x, "results": []string{sig(idr.DisableXPathCache)}, "config": "no xpath cache"})
+				events = append(events, M{"ev": "same", "tr": trNo, "item": "xpath " + x, "results": []string{sig()}, "config": fmt.Sprintf("xpath cache, round %d", round+1)})
+				sum.Traces++
+				sum.eval(true, M{"x": x, "r": round})
 			}
 		}
 	}
